@@ -64,6 +64,13 @@ CHECKS["C17"] = ("exploration",
     "with the members' predictions on float64, float32, integer and single-row batches.",
     "DESIGN.md §3 C17")
 
+CHECKS["C19"] = ("exploration",
+    "runtime monitor with a cell-by-cell reference encoder; unseen categories planted at every (row, column) "
+    "position; index kinds; options columns/remove/single/skip_errors",
+    "Every cell of every transformed frame is compared with a 25-line reference encoder, including frames with an "
+    "unseen category at each position in turn (must raise, or with skip_errors leave every other cell identical).",
+    "DESIGN.md §3 C19")
+
 PENDING = {}
 
 
